@@ -529,8 +529,6 @@ fn sweep(args: &Args, rng: &mut Rng) -> Vec<(String, String, usize)> {
                     &["set:ff", "set:00", "xor:01", "xor:80", "set:7f", "xor:10"]
                 } else if off % 4 == id % 4 {
                     &["set:ff", "set:00", "xor:01", "xor:80"]
-                } else if off % 2 == 0 {
-                    &["set:ff", "xor:01"]
                 } else {
                     &["xor:01"]
                 };
@@ -545,13 +543,15 @@ fn sweep(args: &Args, rng: &mut Rng) -> Vec<(String, String, usize)> {
             }
             if op == "ipc" {
                 // flatbuffer scalars are 4/8-byte little-endian: inflate every aligned word
+                let vs64: &[i64] = if thorough { &[-1, i64::MAX, 1 << 40, n as i64, n as i64 * 8] } else { &[-1, i64::MAX, n as i64] };
                 for off in (0..n.saturating_sub(8)).step_by(if thorough { 4 } else { 8 }) {
-                    for v in [-1i64, i64::MAX, 1 << 40, n as i64, n as i64 * 8] {
+                    for v in vs64 {
                         push(format!("le64:{}:{}", off, v), "inflate-i64", &mut out);
                     }
                 }
-                for off in (0..n.saturating_sub(4)).step_by(4) {
-                    for v in [-1i64, 0x7fffffff, n as i64] {
+                let vs32: &[i64] = if thorough { &[-1, 0x7fffffff, n as i64] } else { &[-1, 0x7fffffff] };
+                for off in (0..n.saturating_sub(4)).step_by(if thorough { 4 } else { 8 }) {
+                    for v in vs32 {
                         push(format!("le32:{}:{}", off, v), "inflate-i32", &mut out);
                     }
                 }
@@ -596,7 +596,7 @@ fn main() {
     }
     let args = parse_args();
     let mut sink = Sink::new(&args.out);
-    let timeout = Duration::from_secs(if args.tier == "thorough" { 20 } else { 5 });
+    let timeout = Duration::from_secs(if args.tier == "thorough" { 30 } else { 10 });
     let mut w = Worker::spawn(timeout);
     if args.mode == "replay" {
         for line in read_cases(args.replay.as_ref().unwrap()) {
